@@ -17,6 +17,7 @@ import (
 	"strings"
 
 	"github.com/bufbuild/protovalidate-go"
+	"github.com/pentops/j5/gen/j5/schema/v1/schema_j5pb"
 	"github.com/pentops/j5/internal/verifh/vh"
 	"github.com/pentops/j5/lib/j5schema"
 	"google.golang.org/protobuf/reflect/protoreflect"
@@ -285,6 +286,11 @@ func execSchema(h *vh.H, op string) string {
 		}
 	}
 
+	// the fixed oneof / object declarations of the file: names, order, proto numbers, descriptions
+	if got := reflectRoots(file); got != expectedRoots {
+		h.Fail("schema-diff:fixed-roots", op, fmt.Sprintf("declared %q reflected %q", expectedRoots, got))
+	}
+
 	// the same schema must come out of the printed-and-reparsed .proto text
 	if re, _, err := reparse(file); err != nil {
 		h.Count("schema.text.error")
@@ -442,4 +448,58 @@ func specQual(s *Spec) string {
 		return ""
 	}
 	return "[" + strings.Join(q, ",") + "]"
+}
+
+const expectedRoots = `oneof On desc="" [a:object(foo.v1.Bar)#1 b:string#2] ; object Bar desc="the bar" [x:string#1]`
+
+// reflectRoots renders the reflected schemas of the file's fixed declarations `oneof On` and `object Bar`.
+func reflectRoots(file protoreflect.FileDescriptor) (out string) {
+	defer func() {
+		if r := recover(); r != nil {
+			out = "panic"
+		}
+	}()
+	cache := j5schema.NewSchemaCache()
+	var parts []string
+	for _, name := range []string{"On", "Bar"} {
+		md := file.Messages().ByName(protoreflect.Name(name))
+		if md == nil {
+			return "missing " + name
+		}
+		rs, err := cache.Schema(md)
+		if err != nil {
+			return "error " + name
+		}
+		root := rs.ToJ5Root()
+		var kind, desc string
+		var props []string
+		render := func(ps []*schema_j5pb.ObjectProperty) {
+			for _, p := range ps {
+				t := "?"
+				switch ft := p.Schema.GetType().(type) {
+				case *schema_j5pb.Field_String_:
+					t = "string"
+				case *schema_j5pb.Field_Object:
+					t = "object(" + ft.Object.GetRef().GetPackage() + "." + ft.Object.GetRef().GetSchema() + ")"
+				}
+				nums := make([]string, len(p.ProtoField))
+				for i, n := range p.ProtoField {
+					nums[i] = fmt.Sprint(n)
+				}
+				props = append(props, fmt.Sprintf("%s:%s#%s", p.Name, t, strings.Join(nums, ".")))
+			}
+		}
+		switch {
+		case root.GetOneof() != nil:
+			kind, desc = "oneof "+root.GetOneof().Name, root.GetOneof().Description
+			render(root.GetOneof().Properties)
+		case root.GetObject() != nil:
+			kind, desc = "object "+root.GetObject().Name, root.GetObject().Description
+			render(root.GetObject().Properties)
+		default:
+			kind = "other " + name
+		}
+		parts = append(parts, fmt.Sprintf("%s desc=%q [%s]", kind, desc, strings.Join(props, " ")))
+	}
+	return strings.Join(parts, " ; ")
 }
